@@ -14,6 +14,7 @@ RULE = ("Hypothesis-generated (scenario, schedule) cases: 1-5 scripted compliant
         "and >= 2 replies pending at once; distinct = distinct case hashes"
         "; in addition six long runs (until 80 / 120 / 1100, strides of hundreds, 24 simulators) under FIFO, LIFO and a starved simulator, and the "
         "extreme policies (LIFO, steps first, get_data first, each simulator starved) before every schedule enumeration")
+RULE += '; generated scenarios include async_requests flags, scenario-script styles, value shapes and child entities of a non-public model'
 ASSUMPTIONS = [
     "simulators are scripted and API-compliant (behaviour tables with loop budgets below max_loop_iterations)",
     "interleavings are explored at the granularity of event-loop iterations (mosaik's own concurrency model)",
